@@ -45,8 +45,14 @@ def wire_colour(c, what):
     return [wire_int(x, what + ' component', 0, 65535) for x in c]
 
 
+MAX_EVENTS = 6000       # far more than a generated script owes (Lang's step budget is 4000)
+
+
 def encode_events(events, machine_fault, timed_out=False):
     out = []
+    if len(events) > MAX_EVENTS:
+        # a run-away run: what it did up to here is judged, and then that it did not end by itself
+        events, timed_out = events[:MAX_EVENTS], True
     for ev in events:
         kind = ev[0]
         if kind in ('clock_start', 'flush', 'log'):
@@ -88,7 +94,7 @@ def execute(record):
     try:
         if world.discover_exception is not None:
             return None, 'discovery raised %r' % (world.discover_exception,), None
-        res = runner.run_script(world, record['text'])
+        res = runner.run_script(world, record['text'], max_events=3 * MAX_EVENTS)
     finally:
         world.close()
     if res.compile_exception is not None:
